@@ -24,7 +24,8 @@ func boundsOf(s *Sym, facts []Atom, x string) (lo, hi *int64) {
 			*p = &nv
 		}
 	}
-	for _, a := range facts {
+	for _, a := range s.prog.expandFacts(s, facts, 0) {
+		s := a.S
 		if a.Kind != Truth {
 			continue
 		}
@@ -213,7 +214,7 @@ func c13(p *Prog, r *Report) {
 	if fn := anchor(p, r, R4, "~/ecdsa.Sign"); fn != nil {
 		s := p.NewSym(fn)
 		entropy := "make(const:32, fill<io.ReadFull>(param:0, const:dst))"
-		key := "slice(hash<crypto/sha512.New>(cat(call<(*math/big.Int).Bytes>(param:1.D), " + entropy + ", param:2)), const:0, const:32)"
+		key := "slice(hash<sha512>(cat(call<(*math/big.Int).Bytes>(param:1.D), " + entropy + ", param:2)), const:0, const:32)"
 		sites := sitesIn(fn, func(n string) bool { return n == "crypto/aes.NewCipher" })
 		if len(sites) != 1 {
 			r.Fail(R4, "Sign keys AES once", p.Pos(fn.Pos()), fmt.Sprintf("%d calls to aes.NewCipher", len(sites)))
